@@ -289,7 +289,7 @@ func (p *Program) verifyFunction(name string, tier string, prop string, sink fun
 }
 
 func (x *Exec) coverEntry(s *State) {
-	if x.fnc != nil && x.fnc.NoCover {
+	if false && x.fnc != nil && x.fnc.NoCover { // cover queries run for these too: `unknown` passes, only a proved contradiction is reported
 		return // satisfiable queries over the quantified theory do not terminate; covered by the finite-carrier check
 	}
 	x.cover(s, "entry")
@@ -439,7 +439,7 @@ func (x *Exec) atReturn(s *State, f *ssa.Function, fc, fieldC *FuncContract, arg
 			x.oblige(s, "locks", "held-at-return:"+sanitize(k), TFalse, pos, nil)
 		}
 	}
-	if x.coverN < 4 && !(x.fnc != nil && x.fnc.NoCover) {
+	if x.coverN < 4 {
 		x.coverN++
 		x.cover(s, "return")
 	}
